@@ -266,6 +266,12 @@ cdef inline int subelem(
 
     _unpack_len[itemlen_t](buf, offset[0], &elemlen)
     offset[0] += sizeof(itemlen_t)
+    if itemlen_t is int32_t:
+        if elemlen < 0:
+            # a null element: from_binary() turns a negative size into None
+            elem_buf.ptr = NULL
+            elem_buf.size = -1
+            return 0
     slice_buffer(buf, elem_buf, offset[0], elemlen)
     offset[0] += elemlen
     return 0
@@ -333,7 +339,8 @@ cdef _deserialize_map(itemlen_t dummy_version,
         subelem[itemlen_t](buf, &val_buf, &offset, numelements)
         key = from_binary(key_deserializer, &key_buf, protocol_version)
         val = from_binary(val_deserializer, &val_buf, protocol_version)
-        themap._insert_unchecked(key, to_bytes(&key_buf), val)
+        # a null key has no serialized form (as in MapType.deserialize_safe)
+        themap._insert_unchecked(key, to_bytes(&key_buf) if key_buf.size >= 0 else None, val)
 
     return themap
 
